@@ -13,6 +13,7 @@ mod feature_replay;
 mod geom_replay;
 mod kalman_replay;
 mod nms_replay;
+mod pydump;
 mod r2_record;
 mod store_replay;
 mod track_replay;
@@ -45,6 +46,7 @@ fn main() {
         ("replay", "constraints") => constraints_replay::main(&opts),
         ("replay", "visvote") => visvote_replay::main(&opts),
         ("replay", "voting") => voting_replay::main(&opts),
+        ("dump", k) => pydump::main(k, &opts),
         (a, b) => {
             eprintln!("vh: unknown command {} {}", a, b);
             std::process::exit(2);
